@@ -97,7 +97,7 @@ pub(super) fn net_endpoint(ctor: &str, tcp_uri: Option<String>, uds_path: Option
         ("tcpn", Some(u), _) => Endpoint::new(u).ok(),
         ("tcpb", Some(u), _) => Some(Channel::builder(u.parse::<http::Uri>().ok()?)),
         ("tcpc", Some(u), _) => Channel::from_shared(u).ok(),
-        ("uds", _, Some(p)) => Endpoint::from_shared(format!("unix:{}", p)).ok(),
+        ("uds" | "udsl", _, Some(p)) => Endpoint::from_shared(format!("unix:{}", p)).ok(),
         ("uds2", _, Some(p)) => Endpoint::from_shared(format!("unix://{}", p)).ok(),
         ("udss", _, Some(p)) => Some(Endpoint::from_static(leak(format!("unix:{}", p)))),
         ("udss2", _, Some(p)) => Some(Endpoint::from_static(leak(format!("unix://{}", p)))),
@@ -108,7 +108,7 @@ pub(super) fn net_endpoint(ctor: &str, tcp_uri: Option<String>, uds_path: Option
 }
 
 pub(super) const NET_CTORS_TCP: &[&str] = &["tcps", "tcpn", "tcpb", "tcpc"];
-pub(super) const NET_CTORS_UDS: &[&str] = &["uds2", "udss", "udss2", "udsp", "udst"];
+pub(super) const NET_CTORS_UDS: &[&str] = &["uds2", "udss", "udss2", "udsp", "udst", "udsl"];
 
 pub(super) fn is_net_ctor(t: &str) -> bool {
     t == "tcp" || t == "uds" || NET_CTORS_TCP.contains(&t) || NET_CTORS_UDS.contains(&t)
@@ -300,6 +300,12 @@ pub(super) fn generate_x(thorough: bool, rng: &mut Rng, out: &mut Vec<String>) {
     } else {
         &["bcuckcuc", "ubckcucc"]
     };
+    // the socket behind a symlinked directory that every server generation re-points (seed C14g)
+    for m in modes {
+        for sc in ["ubckcuc", "ubcxcucc", "ubckcuckcuc"] {
+            out.push(format!("net udsl {} {}", m, sc));
+        }
+    }
     for ctor in NET_CTORS_TCP.iter().chain(NET_CTORS_UDS.iter()) {
         for m in modes {
             for sc in scripts {
